@@ -41,7 +41,8 @@ var (
 	poolCIDR  = []string{"10.0.0.0/8", "0.0.0.0/0", "192.168.1.1/32", "10.1.2.3/24", "2001:db8::/32", "::/0", "10.0.0.0/33", "10.0.0.0", "2001:db8::/129", "172.16.0.0/12", "::ffff:10.0.0.0/104"}
 	poolDur   = []string{"1h", "0s", "-1s", "1000000h", "99999999999s", "abc", "", "1.5h", "1e3s", "300ms", "1h30m", "2562047h", "-2562047h", "1ns"}
 	poolInt   = []string{"1500", "0", "-1", "65535", "65536", "99999999999999999999", "abc", "1.5", " 5", "68", "0x10", "1e3", "+7"}
-	poolURL   = []string{"tftp://10.0.0.5/pxelinux.0", "http://boot.example.org/ipxe.efi", "https://[2001:db8::5]:8443/a?params=x", "ftp://h/p", "bootfile.efi", "", "://bad", "tftp://" + strings.Repeat("h", 300) + "/x", "http://h/" + strings.Repeat("p", 300), "tftp://h/%zz", "http://h/p?params=" + strings.Repeat("q", 70000), "\x00", "tftp://user:pw@h:69/p#frag"}
+	poolURL   = []string{"tftp://10.0.0.5/pxelinux.0", "http://boot.example.org/ipxe.efi", "https://[2001:db8::5]:8443/a?params=x", "ftp://h/p", "bootfile.efi", "", "://bad", "tftp://" + strings.Repeat("h", 300) + "/x", "http://h/" + strings.Repeat("p", 300), "tftp://h/%zz", "http://h/p?params=" + strings.Repeat("q", 70000), "\x00", "tftp://user:pw@h:69/p#frag",
+		"http://[2001:db8::1]/" + strings.Repeat("\u00e9", 21845), "http://h/?params=" + strings.Repeat("\u00e9", 30000), "http://h/" + strings.Repeat("%41", 21000)}
 	poolLabel = []string{"example.org", "a.b.c.d.e", strings.Repeat("l", 63) + ".org", strings.Repeat("l", 64) + ".org", strings.Repeat("x", 255), "", "a..b", "example.com.", ".", "münchen.example", "a b", strings.Repeat("a.", 130) + "z", "\x00.org"}
 	poolMisc  = []string{"", " ", "autorefresh", "-", "0", "x", "\xff\xfe"}
 )
@@ -231,9 +232,18 @@ func (setupEngine) Run(ctx *fw.Ctx, cs any) {
 	ctx.Nontrivial("C19", conf)
 	replies := 0
 	for i, r := range out.Res {
+		for _, code := range r.OversizeOpts {
+			ctx.Viol("C19", fmt.Sprintf("option-too-long-for-the-wire:%s", c.Plugin), "%s was accepted at start-up; the response to {%s} carries option %d whose value does not fit the 16-bit option length", conf, desc[i], code)
+		}
 		for _, cp := range r.Caps {
 			replies++
 			b, _ := hex.DecodeString(cp.Hex)
+			if len(b) > 65507 {
+				// larger than any UDP datagram: the server's WriteTo fails and nothing leaves; the
+				// round trip of something that cannot exist on the wire is not classified
+				ctx.Count("setup.reply_larger_than_a_datagram", 1)
+				continue
+			}
 			if sig, msg := roundTrip(c.V6, b, r); sig != "" {
 				ctx.Viol("C19", sig+":"+c.Plugin, "%s was accepted at start-up; reply to {%s}: %s", conf, desc[i], msg)
 			}
